@@ -20,7 +20,9 @@ def main():
     ck = Check('C13')
     prog = dump_ssa('c13')
     thorough = ck.tier == 'thorough'
-    idlens = [0, 1, 16, 31, 32, 55, 64, 255, 256, 4096, 8190, 8191, 8192, 8193, 8200, 16384, 70000] if thorough else [0, 1, 16, 8191, 8192, 8193, 16384]
+    # lengths at and beyond 2^16 (and 2^17) are the ones a length narrowed to 16 bits before the test wraps back into the accepted range (seed C13_j)
+    wrap = [65535, 65536, 65552, 73727, 131072]
+    idlens = ([0, 1, 16, 31, 32, 55, 64, 255, 256, 4096, 8190, 8191, 8192, 8193, 8200, 16384, 70000] if thorough else [0, 1, 16, 8191, 8192, 8193, 16384]) + wrap
     ck.bounds.append('ZA: id lengths %s with symbolic contents, public key coordinates 32 symbolic bytes; wrappers with id 16 / message lengths 0, 5, 70' % idlens)
     ck.outside.append('id lengths not listed (ENTL and the length test are the only length-dependent code)')
     ck.assumptions += ['sm3 hash object = uninterpreted digest of the concatenation of written slices (C04 shows the real object computes SM3 of that concatenation)']
